@@ -98,9 +98,13 @@ func sanitizePath(basePath, name string) (string, error) {
 		return "", fmt.Errorf("invalid path: traversal attempt detected")
 	}
 
-	// Additional check: ensure no ".." components remain after cleaning
-	if strings.Contains(cleanPathSlash, "..") {
-		return "", fmt.Errorf("invalid path: contains parent directory reference")
+	// Additional check: ensure no ".." components remain after cleaning. Only a
+	// whole component is a parent directory reference: names that merely contain
+	// two dots ("..a", "a..b") are ordinary names.
+	for _, component := range strings.Split(cleanPathSlash, "/") {
+		if component == ".." {
+			return "", fmt.Errorf("invalid path: contains parent directory reference")
+		}
 	}
 
 	// Return the path with forward slashes for consistent NFS path representation
